@@ -502,6 +502,21 @@ func validateAll(c *Case, a, b *built, doc *ast.Document) []realRun {
 // validateIsolated runs the case in a child process: a Go stack overflow is a fatal error that no
 // recover() catches. Used for documents with fragment cycles (where unbounded recursion is possible).
 func validateIsolated(c *Case) []realRun {
+	runs, ok := validateInChild(c)
+	if ok {
+		return runs
+	}
+	// the child could not be started or could not set the case up (resource limits of the
+	// machine, not the validator): validate in-process rather than report a crash that did not happen
+	a, b, doc, perr, err := prepare(c)
+	if err != nil || perr != "" {
+		return []realRun{{}, {}, {}, {}, {}}
+	}
+	return validateAll(c, a, b, doc)
+}
+
+// validateInChild returns ok=false when the child process itself could not do its job.
+func validateInChild(c *Case) ([]realRun, bool) {
 	in, _ := json.Marshal(c)
 	cmd := exec.Command(os.Args[0], "-child")
 	cmd.Stdin = bytes.NewReader(in)
@@ -520,15 +535,26 @@ func validateIsolated(c *Case) []realRun {
 			err = <-done
 			timedOut = true
 		}
-		if ee, ok := err.(*exec.ExitError); ok {
-			if ws, ok := ee.Sys().(syscall.WaitStatus); ok && ws.Signaled() && (ws.Signal() == syscall.SIGXCPU || ws.Signal() == syscall.SIGKILL) && !timedOut {
-				timedOut = true
+		if ee, ok := err.(*exec.ExitError); ok && !timedOut {
+			if ws, ok := ee.Sys().(syscall.WaitStatus); ok && ws.Signaled() && (ws.Signal() == syscall.SIGXCPU || ws.Signal() == syscall.SIGKILL) {
+				used := cmd.ProcessState.UserTime() + cmd.ProcessState.SystemTime()
+				if used >= (isolatedCPUSeconds-2)*time.Second {
+					timedOut = true // the CPU limit
+				} else if ws.Signal() == syscall.SIGKILL {
+					return nil, false // killed by the machine (memory pressure …), not by the validator
+				}
 			}
 		}
 	}
 	var runs []realRun
 	if err == nil && json.Unmarshal(out.Bytes(), &runs) == nil && len(runs) == 5 {
-		return runs
+		return runs, true
+	}
+	if cmd.ProcessState == nil {
+		return nil, false // never started
+	}
+	if ee, ok := err.(*exec.ExitError); ok && ee.ExitCode() == 3 {
+		return nil, false // the child could not decode / prepare the case
 	}
 	msg := "validator killed the process"
 	if timedOut {
@@ -540,7 +566,7 @@ func validateIsolated(c *Case) []realRun {
 			break
 		}
 	}
-	return []realRun{{Panic: msg}, {Panic: msg}, {Panic: msg}, {Panic: msg}, {Panic: msg}}
+	return []realRun{{Panic: msg}, {Panic: msg}, {Panic: msg}, {Panic: msg}, {Panic: msg}}, true
 }
 
 func childMain() {
